@@ -792,3 +792,26 @@ def per_field_metadata_is_independent(ctx: Ctx) -> None:
                                    msg=f"`{x.id}` keeps the value assigned for an earlier item (definition at line {sorted(g.nodes[d].lineno for d in carried)}): "
                                        "e.g. the namespace of a base class with its own Meta leaks into the fields declared after it")
     ctx.floor("arguments of per-field builder calls", n, 8)
+
+
+@rule("C03.R14")
+def end_tag_leaves_tail_state(ctx: Ctx) -> None:
+    """EventHandler.end_tag: when an element closes the writer is back in the text state of its parent - every normal path through end_tag
+    resets self.in_tail (and forgets the pending tail), so the parent's following text is written in place, not parked as a tail."""
+    fi = ctx.repo.method(EH, "end_tag")
+    g = build_cfg(fi.node)
+    resets = [g.node_of(st) for st, tgt, v in stores(fi.node) if is_self_attr(tgt, "in_tail") and isinstance(v, ast.Constant) and v.value is False]
+    resets = [n for n in resets if n is not None]
+    if not resets:
+        # the reset may be delegated to a helper the rule does not follow; a direct store of another value is a different decision
+        other = [st for st, tgt, v in stores(fi.node) if is_self_attr(tgt, "in_tail")]
+        delegated = [c for c in calls_in(fi.node) if isinstance(c.func, ast.Attribute) and unparse(c.func.value) == "self" and c.func.attr not in ("flush_start", "end_element", "set_characters", "end_prefix_mapping")]
+        if other or not delegated:
+            ctx.ob("end_tag resets the tail state (self.in_tail = False) on every path", False, at=fi, construct="end_tag tail reset",
+                   msg="after a child element with character data closes, the parent's following text is parked as a tail and written after the parent's end tag (<p>a<b>b</b></p>c)")
+        else:
+            ctx.abstain("tail-state reset of end_tag", at=fi, why=f"no `self.in_tail = False` store; possibly delegated to {sorted({c.func.attr for c in delegated})}")
+        return
+    reach = g.reachable([g.entry], blocked=[n.id for n in resets], labels=lambda lab: lab != "exc")
+    ctx.ob("end_tag resets the tail state (self.in_tail = False) on every path", g.exit not in reach, at=fi, construct="end_tag tail reset",
+           msg="after a child element with character data closes, the parent's following text is parked as a tail and written after the parent's end tag (<p>a<b>b</b></p>c)")
